@@ -1199,7 +1199,7 @@ func init() {
 							}
 						}
 					}
-					construct := ord.next("call " + f.Name())
+					construct := ord.next("call " + shortName(f))
 					if swapped != "" {
 						obs = append(obs, mkOb(c, rid, u, construct, ce, Violated, "the caller's variables "+swapped+" are passed to "+FuncName(f)+" in each other's place (same type, so it compiles): forms are stamped with the wrong location string, so a relative load-file issued from a program parsed this way resolves against the wrong directory — outside what the library would otherwise allow, or to a different file of the same name", true))
 					} else {
